@@ -439,14 +439,17 @@ inline std::string numeric_literal_to_value(
             return fmt::format("-::std::numeric_limits<{}>::infinity()", type);
         }
 
+        // without the suffix a `float` value is rounded twice: to `double` by
+        // the literal and to `float` by the initialization
+        const auto suffix = (type == "float") ? "f" : "";
         if(value.find_first_of(".eE") == std::string_view::npos)
         {
             // integer-like text (`16777217`, `010`) would become an integer
             // (or even octal) literal, make it a floating-point one
-            return fmt::format("{}.0", value);
+            return fmt::format("{}.0{}", value, suffix);
         }
 
-        return std::string{value};
+        return fmt::format("{}{}", value, suffix);
     }
 
     return utils::to_integer_literal(value, type);
